@@ -1,10 +1,11 @@
 import Driver.Codec
-import Driver.Ops.Parse
 import Driver.Ops.Filter
+import Driver.Ops.Parse
 /-! op `run`: settings + journal (+ wanted outputs) ⇒ load status and outputs.
     The journal is given as an AST (`txns`: the semantic layers only), as text (`text`: parsed by
     `Model/Syntax`, then loaded) or as a list of files (`files`: `paths_to_txns`).  With `astcheck` and both
     `text` and `txns` present the answer also says whether `Syntax.parseJournal text` equals the AST.
+    An optional `mfilter` (model-side filter definition) selects the transactions the outputs are computed from.
     Outputs are looked up in a table passed by `Main` (one entry per output kind). -/
 open Lean Tackler Codec
 
@@ -60,11 +61,17 @@ def opRun (table : List (String × OutputFn)) (j : Json) : R Json := do
   | .undef => pure (Json.mkObj (status "UNDEF" ++ extra))
   | .ok (ts0, st') =>
     -- optional transaction filter (`TxnData::filter`): outputs are computed from the selected set
-    let ts ← match optField j "mfilter" with
-      | some f => do pure (filterTxns simpleMatch (← filterOfJson f) ts0)
-      | none => pure ts0
-    pure (Json.mkObj (status "OK" ++ [("n", Json.num (JsonNumber.fromNat ts0.length)),
-      ("selected", Json.num (JsonNumber.fromNat ts.length)),
-      ("out", Json.mkObj (want.map (fun w => (w, runOutput table j st' ts w))))] ++ extra))
+    match optField j "mfilter" with
+    | some fj =>
+      let f ← filterOfJson fj
+      if !filterInSubset f then pure (Json.mkObj (status "UNDEF" ++ extra))
+      else
+        let ts := filterTxns regexMatch f ts0
+        pure (Json.mkObj (status "OK" ++ [("n", Json.num (JsonNumber.fromNat ts0.length)),
+          ("selected", Json.num (JsonNumber.fromNat ts.length)),
+          ("out", Json.mkObj (want.map (fun w => (w, runOutput table j st' ts w))))] ++ extra))
+    | none =>
+      pure (Json.mkObj (status "OK" ++ [("n", Json.num (JsonNumber.fromNat ts0.length)),
+        ("out", Json.mkObj (want.map (fun w => (w, runOutput table j st' ts0 w))))] ++ extra))
 
 end Ops
